@@ -292,6 +292,9 @@ func Translate(repo string, spec TransSpec) (out string, err error) {
 	t.analyse()
 	for _, fi := range t.order {
 		sb.WriteString("\n" + t.emitFunc(fi))
+		// proofs unfold generated definitions through this hint database, so that a helper function that appears
+		// in the source later is unfolded without touching the proof scripts
+		fmt.Fprintf(&sb, "#[export] Hint Unfold %s : go2v.\n", fi.name)
 	}
 	return sb.String(), nil
 }
@@ -322,6 +325,11 @@ func (si *structInfo) emit() string {
 		b.WriteString(" " + ft.zero())
 	}
 	b.WriteString(".\n")
+	fmt.Fprintf(&b, "#[export] Hint Unfold zero_%s", si.name)
+	for _, f := range si.fields {
+		fmt.Fprintf(&b, " set_%s_%s %s_%s", si.name, f, si.name, f)
+	}
+	b.WriteString(" : go2v.\n")
 	return b.String()
 }
 
